@@ -72,7 +72,7 @@ impl PixelDataReader for RleLosslessAdapter {
             let fragment = &src
                 .fragment(i)
                 .whatever_context("No pixel data found for frame")?;
-            let mut offsets = read_rle_header(fragment);
+            let mut offsets = read_rle_header(fragment)?;
             offsets.push(fragment.len() as u32);
 
             for sample_number in 0..samples_per_pixel {
@@ -80,7 +80,7 @@ impl PixelDataReader for RleLosslessAdapter {
                     // ii is 1, 0, 3, 2, 5, 4 for the example above
                     // This is where the segment order correction occurs
                     let ii = sample_number * bytes_per_sample + byte_offset;
-                    let segment = &fragment[offsets[ii] as usize..offsets[ii + 1] as usize];
+                    let segment = rle_segment(fragment, &offsets, ii)?;
                     let buff = io::Cursor::new(segment);
                     let (_, decoder) = PackBitsReader::new(buff, segment.len())
                         .whatever_context("Failed to read RLE segments")?;
@@ -112,7 +112,9 @@ impl PixelDataReader for RleLosslessAdapter {
                         .step_by(bytes_per_sample * samples_per_pixel)
                         .enumerate()
                     {
-                        dst[base_offset + dst_index] = decoded_segment[decoded_index];
+                        dst[base_offset + dst_index] = *decoded_segment
+                            .get(decoded_index)
+                            .whatever_context("RLE segment is shorter than a sample plane")?;
                     }
                 }
             }
@@ -183,7 +185,7 @@ impl PixelDataReader for RleLosslessAdapter {
         let fragment = &src
             .fragment(frame as usize)
             .whatever_context("No pixel data found for frame")?;
-        let mut offsets = read_rle_header(fragment);
+        let mut offsets = read_rle_header(fragment)?;
         offsets.push(fragment.len() as u32);
 
         for sample_number in 0..samples_per_pixel {
@@ -191,7 +193,7 @@ impl PixelDataReader for RleLosslessAdapter {
                 // ii is 1, 0, 3, 2, 5, 4 for the example above
                 // This is where the segment order correction occurs
                 let ii = sample_number * bytes_per_sample + byte_offset;
-                let segment = &fragment[offsets[ii] as usize..offsets[ii + 1] as usize];
+                let segment = rle_segment(fragment, &offsets, ii)?;
                 let buff = io::Cursor::new(segment);
                 let (_, decoder) = PackBitsReader::new(buff, segment.len())
                     .map_err(|e| Box::new(e) as Box<_>)
@@ -215,7 +217,9 @@ impl PixelDataReader for RleLosslessAdapter {
                     .step_by(bytes_per_sample * samples_per_pixel)
                     .enumerate()
                 {
-                    dst[base_offset + dst_index] = decoded_segment[decoded_index];
+                    dst[base_offset + dst_index] = *decoded_segment
+                        .get(decoded_index)
+                        .whatever_context("RLE segment is shorter than a sample plane")?;
                 }
             }
         }
@@ -226,11 +230,29 @@ impl PixelDataReader for RleLosslessAdapter {
 // TODO(#125) implement `encode`
 
 // Read the RLE header and return the offsets
-fn read_rle_header(fragment: &[u8]) -> Vec<u32> {
+fn read_rle_header(fragment: &[u8]) -> DecodeResult<Vec<u32>> {
+    // the header is made of the number of segments and 15 offsets
+    if fragment.len() < 64 {
+        whatever!("RLE fragment is too short to hold an RLE header");
+    }
     let nr_segments = LittleEndian::read_u32(&fragment[0..4]);
+    if nr_segments > 15 {
+        whatever!("Invalid number of RLE segments {}", nr_segments);
+    }
     let mut offsets = vec![0; nr_segments as usize];
     LittleEndian::read_u32_into(&fragment[4..4 * (nr_segments + 1) as usize], &mut offsets);
-    offsets
+    Ok(offsets)
+}
+
+/// Obtain the bytes of the RLE segment of the given index,
+/// as located by the offsets in the RLE header.
+fn rle_segment<'a>(fragment: &'a [u8], offsets: &[u32], index: usize) -> DecodeResult<&'a [u8]> {
+    let (Some(start), Some(end)) = (offsets.get(index), offsets.get(index + 1)) else {
+        whatever!("RLE segment {} not found in fragment", index);
+    };
+    fragment
+        .get(*start as usize..*end as usize)
+        .whatever_context("Invalid RLE segment offset")
 }
 
 /// PackBits Reader from the image-tiff crate
